@@ -25,17 +25,36 @@ template <class X, class Y> inline bool bits_eq(const Eigen::MatrixBase<X>& x, c
   return true;
 }
 
+// component constructors: an owning element rebuilt from the parts of `a` (whatever kind `a` is) ----------------------
+// Variants that pass through a user-side conversion (angle-axis, Euler angles, rotation matrix) start from the
+// normalised quaternion: those constructors take user data as it is (they only assert), and a rotation matrix
+// computed from a quaternion that is 0.9 eps off the unit sphere is 1.8 eps off — user data the library is right
+// to refuse.  The variants that copy coefficients use the stored parts unchanged.
+template <class S> inline Eigen::Matrix<S, 3, 1> rpy_of(const Eigen::Quaternion<S>& q) {
+  const Eigen::Matrix<S, 3, 1> e = q.toRotationMatrix().eulerAngles(2, 1, 0);   // yaw, pitch, roll
+  return Eigen::Matrix<S, 3, 1>(e(2), e(1), e(0));
+}
+template <class S> inline Eigen::Transform<S, 3, Eigen::Isometry> iso3_of(const Eigen::Matrix<S, 3, 1>& t, const Eigen::Quaternion<S>& q) {
+  Eigen::Transform<S, 3, Eigen::Isometry> h = Eigen::Transform<S, 3, Eigen::Isometry>::Identity();
+  h.linear() = q.toRotationMatrix(); h.translation() = t; return h;
+}
+
 // ---- elements: const accessors -------------------------------------------------------------------------------
 // held(a, b, acc): accessor results of a bound to const references, the same accessors then used on b; true when the
 // held results are unchanged afterwards.
 template <class G> struct Acc {   // default: nothing group specific
   template <class A> static bool read(const A&, Collector&) { return false; }
   template <class A, class B> static bool held(const A&, const B&, double&) { return true; }
+  template <class A> static bool ctor(const A&, int, G&) { return false; }
   template <class A, class B> static bool set_from(A&, const B&, int) { return false; }
 };
 template <class S> struct Acc<manif::SO2<S> > {
   template <class A> static bool read(const A& a, Collector& c) { c.s(a.real()); c.s(a.imag()); c.s(a.angle()); c.m(a.rotation()); c.m(a.transform()); return true; }
   template <class A, class B> static bool held(const A&, const B&, double&) { return true; }
+  template <class A> static bool ctor(const A& a, int how, manif::SO2<S>& r) {
+    if (how % 2 == 0) r = manif::SO2<S>(a.real(), a.imag()); else r = manif::SO2<S>(a.angle());
+    return true;
+  }
   template <class A, class B> static bool set_from(A&, const B&, int) { return false; }
 };
 template <class S> struct Acc<manif::SE2<S> > {
@@ -49,6 +68,22 @@ template <class S> struct Acc<manif::SE2<S> > {
     acc += (double)b.translation()(0) + (double)b.isometry().matrix()(0, 0);
     return bits_eq(t, t0) && bits_eq(iso.matrix(), i0);
   }
+  template <class A> static bool ctor(const A& a, int how, manif::SE2<S>& r) {
+    typedef manif::SE2<S> G;
+    const Eigen::Matrix<S, 2, 1> t = a.translation();
+    switch (how % 5) {
+      case 0: r = G(a.x(), a.y(), a.real(), a.imag()); break;
+      case 1: r = G(a.x(), a.y(), a.angle()); break;
+      case 2: r = G(t, std::complex<S>(a.real(), a.imag())); break;
+      case 3: r = G(a.x(), a.y(), std::complex<S>(a.real(), a.imag())); break;
+      default: {
+        Eigen::Transform<S, 2, Eigen::Isometry> h = Eigen::Transform<S, 2, Eigen::Isometry>::Identity();
+        h.linear() = Eigen::Rotation2D<S>(a.angle()).toRotationMatrix(); h.translation() = t;
+        r = G(h);
+      } break;
+    }
+    return true;
+  }
   template <class A, class B> static bool set_from(A&, const B&, int) { return false; }
 };
 template <class S> struct Acc<manif::SO3<S> > {
@@ -60,6 +95,17 @@ template <class S> struct Acc<manif::SO3<S> > {
     const Eigen::Matrix<S, 4, 1> q0 = q.coeffs();
     acc += (double)b.quat().coeffs()(0);
     return bits_eq(q.coeffs(), q0);
+  }
+  template <class A> static bool ctor(const A& a, int how, manif::SO3<S>& r) {
+    typedef manif::SO3<S> G;
+    const Eigen::Quaternion<S> q = a.quat();
+    switch (how % 4) {
+      case 0: r = G(q); break;
+      case 1: r = G(a.x(), a.y(), a.z(), a.w()); break;
+      case 2: r = G(Eigen::AngleAxis<S>(q.normalized())); break;
+      default: { const Eigen::Matrix<S, 3, 1> e = rpy_of(q.normalized()); r = G(e(0), e(1), e(2)); } break;
+    }
+    return true;
   }
   template <class A, class B> static bool set_from(A& a, const B& b, int how) {
     if (how & 1) a.quat(b.quat()); else { const Eigen::Matrix<S, 4, 1> q = b.coeffs(); a.quat(q); }
@@ -76,6 +122,19 @@ template <class S> struct Acc<manif::SE3<S> > {
     const Eigen::Matrix<S, 4, 1> q0 = q.coeffs(); const Eigen::Matrix<S, 3, 1> t0 = t; const Eigen::Matrix<S, 4, 4> i0 = iso.matrix();
     acc += (double)b.quat().coeffs()(0) + (double)b.translation()(0) + (double)b.isometry().matrix()(0, 0);
     return bits_eq(q.coeffs(), q0) && bits_eq(t, t0) && bits_eq(iso.matrix(), i0);
+  }
+  template <class A> static bool ctor(const A& a, int how, manif::SE3<S>& r) {
+    typedef manif::SE3<S> G;
+    const Eigen::Quaternion<S> q = a.quat();
+    const Eigen::Matrix<S, 3, 1> t = a.translation();
+    switch (how % 5) {
+      case 0: r = G(t, q); break;
+      case 1: r = G(t, Eigen::AngleAxis<S>(q.normalized())); break;
+      case 2: r = G(t, manif::SO3<S>(q)); break;
+      case 3: { const Eigen::Matrix<S, 3, 1> e = rpy_of(q.normalized()); r = G(a.x(), a.y(), a.z(), e(0), e(1), e(2)); } break;
+      default: r = G(iso3_of(t, q.normalized())); break;
+    }
+    return true;
   }
   template <class A, class B> static bool set_from(A& a, const B& b, int how) {
     switch (how % 3) {
@@ -99,6 +158,19 @@ template <class S> struct Acc<manif::SE_2_3<S> > {
     acc += (double)b.quat().coeffs()(0) + (double)b.translation()(0) + (double)b.linearVelocity()(0) + (double)b.isometry()(0, 0);
     return bits_eq(q.coeffs(), q0) && bits_eq(t, t0) && bits_eq(v, v0) && bits_eq(iso, i0);
   }
+  template <class A> static bool ctor(const A& a, int how, manif::SE_2_3<S>& r) {
+    typedef manif::SE_2_3<S> G;
+    const Eigen::Quaternion<S> q = a.quat();
+    const Eigen::Matrix<S, 3, 1> t = a.translation(), v = a.linearVelocity();
+    switch (how % 5) {
+      case 0: r = G(t, q, v); break;
+      case 1: r = G(t, Eigen::AngleAxis<S>(q.normalized()), v); break;
+      case 2: r = G(t, manif::SO3<S>(q), v); break;
+      case 3: { const Eigen::Matrix<S, 3, 1> e = rpy_of(q.normalized()); r = G(a.x(), a.y(), a.z(), e(0), e(1), e(2), a.vx(), a.vy(), a.vz()); } break;
+      default: r = G(iso3_of(t, q.normalized()), v); break;
+    }
+    return true;
+  }
   template <class A, class B> static bool set_from(A&, const B&, int) { return false; }
 };
 template <class S> struct Acc<manif::SGal3<S> > {
@@ -112,6 +184,19 @@ template <class S> struct Acc<manif::SGal3<S> > {
     const Eigen::Matrix<S, Eigen::Dynamic, Eigen::Dynamic> i0 = iso;
     acc += (double)b.quat().coeffs()(0) + (double)b.translation()(0) + (double)b.linearVelocity()(0) + (double)b.isometry()(0, 0);
     return bits_eq(q.coeffs(), q0) && bits_eq(t, t0) && bits_eq(v, v0) && bits_eq(iso, i0);
+  }
+  template <class A> static bool ctor(const A& a, int how, manif::SGal3<S>& r) {
+    typedef manif::SGal3<S> G;
+    const Eigen::Quaternion<S> q = a.quat();
+    const Eigen::Matrix<S, 3, 1> t = a.translation(), v = a.linearVelocity();
+    switch (how % 5) {
+      case 0: r = G(t, q, v, a.t()); break;
+      case 1: r = G(t, Eigen::AngleAxis<S>(q.normalized()), v, a.t()); break;
+      case 2: r = G(t, manif::SO3<S>(q), v, a.t()); break;
+      case 3: { const Eigen::Matrix<S, 3, 1> e = rpy_of(q.normalized()); r = G(a.x(), a.y(), a.z(), e(0), e(1), e(2), a.vx(), a.vy(), a.vz(), a.t()); } break;
+      default: r = G(iso3_of(t, q.normalized()), v, a.t()); break;
+    }
+    return true;
   }
   template <class A, class B> static bool set_from(A&, const B&, int) { return false; }
 };
@@ -129,6 +214,7 @@ template <class S, template <typename> class... T> struct Acc<manif::Bundle<S, T
     return true;
   }
   template <class A, class BB> static bool held(const A&, const BB&, double&) { return true; }
+  template <class A> static bool ctor(const A&, int, B&) { return false; }
   template <class A, class BB> static bool set_from(A&, const BB&, int) { return false; }   // element writes: OP_M_SUBVIEW_WRITE
 };
 
